@@ -38,6 +38,16 @@ def scripts(rng, tmpdir):
     S.append(('vnadata-files', ['vd 0 alloc', 'vd 0 init 1 2 2 1', 'vd 0 set_frequency_vector %s' % vlib.d2h(1e9), 'vd 0 set_matrix 0 ' + ' '.join(z(complex(0.1 * k, 0.2)) for k in range(1, 5)),
                                 'vd 0 savestr ' + h('x.npd'), 'vd 0 cksave ' + h('x.ts'), 'vd 0 savestr ' + h('x.s2p'), 'vd 0 set_format ' + h('ma'), 'vd 0 savestr ' + h('y.npd'),
                                 'vd 1 alloc', 'vd 1 loadstr %s x%s' % (h('l.s2p'), ts_), 'vd 1 digest', 'vd 1 savestr ' + h('z.ts'), 'vd 0 digest', 'vd 0 free', 'vd 1 free']))
+    # files whose tokens are longer than the scanners' first text buffers (81 bytes per NPD line, 64 per Touchstone token): the buffer
+    # grows in the middle of a token, at its end, and at the end of a line
+    long_ = lambda k: '0' * (k - 3) + '1e9'
+    npd_ = ''.join('#NPD\n#:version 1.0\n#:ports 1\n#:frequencies 1\n#:parameters Sri\n#:z0 50 0j\n%s 0.25 0.5\n' % long_(k) for k in ())
+    S.append(('vnadata-long-tokens', ['vd 0 alloc'] +
+              ['vd 0 loadstr %s x%s' % (h('l.npd'), ('#NPD\n#:version 1.0\n#:ports 1\n#:frequencies 1\n#:parameters Sri\n#:z0 50 0j\n%s 0.25 0.5\n' % long_(k)).encode().hex()) for k in (80, 81, 82, 160, 162)] +
+              ['vd 0 loadstr %s x%s' % (h('l.npd'), ('#NPD\n#:version 1.0\n#:ports 1\n#:frequencies 1\n#:parameters Sri\n#:z0 50 0j\n1e9 %s 0.5\n' % ('0' * (k - 4) + '0.25')).encode().hex()) for k in (76, 77, 78)] +
+              ['vd 0 loadstr %s x%s' % (h('l.s1p'), ('# HZ S RI R 50\n%s 0.25 0.5\n' % long_(k)).encode().hex()) for k in (62, 63, 64, 65, 127, 128, 129)] +
+              ['vd 0 loadstr %s x%s' % (h('l.ts'), ('[Version] 2.0\n# HZ S RI R 50\n[Number of Ports] 1\n[Number of Frequencies] 1\n[%s]\n[Network Data]\n1e9 0.25 0.5\n[End]\n' % ('X' * k)).encode().hex()) for k in (63, 64, 65)] +
+              ['vd 0 digest', 'vd 0 free']))
     # property tree
     S.append(('property', ['pt 0 set ' + h('a.b=1'), 'pt 0 set ' + h('a.list[3]=x'), 'pt 0 set ' + h('a.list[1+]=y'), 'pt 0 set ' + h('m.k1.k2.k3=deep'),
                            'pt 0 keys ' + h('a'), 'pt 0 get ' + h('a.b'), 'pt 0 type ' + h('a.list'), 'pt 0 count ' + h('a.list'), 'pt 0 get_subtree ' + h('m.k1'), 'pt 0 quote_key ' + h('k.e y'), 'pt 1 copy 0', 'pt 1 digest', 'pt 0 delete ' + h('a.list[0]'),
